@@ -85,7 +85,26 @@ def datetime_firstlast_nan_fill(case, clause, detail):
             and case.get("fill") == "nan" and clause == "exception:DTypePromotionError")
 
 
+def dataset_var_without_group_dim(case, clause, detail):
+    """xarray_reduce on a Dataset whose variables have different dimensions: every variable is broadcast against all the others
+    before reducing, so a variable that LACKS one of the reduced dimensions is reduced with the multiplicity of that dimension
+    (group sizes, or the length of a dimension only another variable has), whereas native xarray reduces each variable over the
+    dimensions it has"""
+    if not case.get("dataset") or clause != "xarray:values" or not case.get("bad_vars"):
+        return False
+    eff = set(case.get("eff_reduce") or [])
+    vd = case.get("var_dims") or {}
+    return all(k in vd and (eff - set(vd[k])) for k in case["bad_vars"])
+
+
+def dataset_2d_grouper_dim_order(case, clause, detail):
+    """xarray_reduce on a Dataset with a 2-D grouper puts the group dimension last; native xarray puts it first for Datasets"""
+    return bool(case.get("dataset")) and str(case.get("grouper", "")).endswith("2d") and clause == "xarray:dims"
+
+
 MATCHERS = {
+    "dataset_var_without_group_dim": dataset_var_without_group_dim,
+    "dataset_2d_grouper_dim_order": dataset_2d_grouper_dim_order,
     "datetime_firstlast_nan_fill": datetime_firstlast_nan_fill,
     "plan_blockwise_with_dask_labels": plan_blockwise_with_dask_labels,
     "min_count_zero_nanminmax_allnan": min_count_zero_nanminmax_allnan,
